@@ -202,6 +202,9 @@ type Idx struct {
 	Index *index.Index
 	Src   SrcStore // blob source (also serves public keys)
 	KV    sorted.KeyValue
+	// Corpus is the in-memory corpus when NewIdx was asked for one (the pointer returned by
+	// the single KeepInMemory call; calling KeepInMemory again would replace it).
+	Corpus *index.Corpus
 }
 
 // SrcStore is what the index's blob source must provide.
@@ -227,12 +230,15 @@ func NewIdx(kv sorted.KeyValue, src SrcStore, corpus bool) (*Idx, error) {
 	}
 	ix.KeyFetcher = src
 	ix.InitBlobSource(src)
+	x := &Idx{Index: ix, Src: src, KV: kv}
 	if corpus {
-		if _, err := ix.KeepInMemory(); err != nil {
+		c, err := ix.KeepInMemory()
+		if err != nil {
 			return nil, err
 		}
+		x.Corpus = c
 	}
-	return &Idx{Index: ix, Src: src, KV: kv}, nil
+	return x, nil
 }
 
 // Deliver stores b into the blob source and then hands it to the index (the order
